@@ -468,6 +468,9 @@ func (e *Engine) stableVal(t types.Type, prefix string) Val {
 // byteAt reads byte k of a byte slice / string value in state st.
 func (r *FnRun) byteAt(st *State, s SliceV, k *Term) *Term {
 	tb := r.tb()
+	if s.Arr != nil {
+		return tb.Select(s.Arr, tb.Add(s.Off, k))
+	}
 	if s.Raw {
 		return tb.Select(st.M, tb.Add(s.Off, k))
 	}
@@ -475,6 +478,9 @@ func (r *FnRun) byteAt(st *State, s SliceV, k *Term) *Term {
 }
 
 func (r *FnRun) sliceContent(st *State, s SliceV) *Term {
+	if s.Arr != nil {
+		return s.Arr
+	}
 	if s.Raw {
 		return st.M
 	}
@@ -496,6 +502,7 @@ func (r *FnRun) loadedSliceInvariant(st *State, v SliceV) {
 	if v.Cap != nil {
 		r.addFact(tb.And(tb.SLe(v.Len, v.Cap), tb.SLt(v.Cap, lim)))
 		r.addFact(tb.Implies(tb.Eq(v.Base, zero), tb.Eq(v.Cap, zero)))
+		r.addFact(tb.Not(tb.App("rodata", BoolSort, v.Base))) // a []byte never points into read-only string data
 	} else {
 		r.addFact(tb.Implies(tb.Eq(v.Base, zero), tb.Eq(v.Len, zero)))
 	}
